@@ -63,8 +63,14 @@ func mustParseType(s string) ast.Expr {
 }
 
 // axiomCmds renders every axiom as an SMT assertion in the given encoder.
-func (p *Prog) axiomCmds(e *Enc) {
+func (p *Prog) axiomCmds(e *Enc) { p.axiomCmdsFor(e, "*") }
+
+// axiomCmdsFor asserts the axioms declared in the prelude and in the given package (all packages for "*").
+func (p *Prog) axiomCmdsFor(e *Enc, pkgPath string) {
 	for _, ax := range p.contracts.Axioms {
+		if pkgPath != "*" && ax.PkgPath != "" && ax.PkgPath != pkgPath {
+			continue
+		}
 		env := p.lemmaEnv(e, ax.PkgPath)
 		// universally quantified variables become SMT bound variables
 		var binders []string
@@ -91,9 +97,9 @@ func (p *Prog) axiomCmds(e *Enc) {
 		}
 		e.trust("axiom: " + ax.Name + " : " + ax.Cl.Text)
 		if len(binders) > 0 {
-			e.emit(fmt.Sprintf("(assert (forall (%s) %s))", strings.Join(binders, " "), t.S))
+			e.pre(fmt.Sprintf("(assert (forall (%s) %s))", strings.Join(binders, " "), t.S))
 		} else {
-			e.assume(t)
+			e.pre(fmt.Sprintf("(assert %s)", t.S))
 		}
 	}
 }
